@@ -8,7 +8,7 @@ ASSUMPTIONS = ['the "does not compile" half of C09 (point + point, scalar x poin
                'inputs are bounded per obligation (|x| <= X, stated in the contract) so that the intermediate displacement, the true result '
                'AND the product by the final scale numerator are representable; the unbounded letter of the property is checked for the '
                'Fahrenheit -> milli-kelvin int32 call site and fails there (known finding KF-C09-1)',
-               'floating reps are not covered for points']
+               'floating reps for points: comparisons with NaN, and conversions on a restricted exactly-representable family (bounded, not counted); the general floating conversion has no exact specification']
 
 # exact definitions, typed here by hand (SI / NIST): unit size u in kelvins, origin o in kelvins above absolute zero
 PT = {
@@ -208,6 +208,22 @@ def obligations(tier, seed):
                           contract='forall a:%s, b:%s (narrow operand over its whole range, wide one bounded): %s of %s_pt(a) and %s_qty(b), read in 1/%d K in the common rep %s, is the point at '
                                    'absolute position a*u1 + o1 %s b*u2' % (c1, c2, nm, s1, t1, FINE, cc, sign),
                           functions_under_contract=(fn,)))
+    # ---- floating reps: point conversions on a restricted family (integer-valued inputs, unit pairs whose scale and origin offset are dyadic, so that every intermediate value is
+    #      exactly representable and the exact rational answer is THE answer): a bounded stand-in, not counted; the general floating case has no exact specification
+    for (s_, t_, rep) in (('K', 'X4', 'f64'), ('X4', 'K', 'f64'), ('X2', 'X5', 'f64'), ('K', 'mK', 'f32'), ('X5', 'X2', 'f64'), ('X4', 'X2', 'f32')):
+        ctf = G.ctype(rep)
+        A_, B_, Dn_ = affine(s_, t_)
+        wfp = Wrapper('w_ptfp_%s_%s_%s' % (s_, t_, rep), ctf, [(ctf, 'x')], 'return au::make_quantity_point<%s>(x).coerce_in(%s{});' % (PT[s_]['ty'], PT[t_]['ty']))
+        body = '''
+  ASSUME(n >= -1000 && n <= 1000);
+  ASSUME((((i64)n * %d + (%d)) %% %d) == 0);     /* the exact result is an integer: representable, and so is every intermediate value */
+  %s x = (%s)n;
+  CHECK(%s(x) == (%s)(((i64)n * %d + (%d)) / %d), "floating-point-conversion-gives-the-exact-affine-image");
+''' % (A_, B_, Dn_, ctf, ctf, wfp.name, ctf, A_, B_, Dn_)
+        obs.append(Ob(id='C09.convfp.family.%s_%s_%s' % (s_, t_, rep), prop='C09', group='C09.fp.%s_%s' % (s_, t_), prelude=prelude(s_, t_), wrappers=[wfp], inputs=[('int16_t', 'n')], body=body,
+                      fp=True, bounded=True, budget=300,
+                      contract='restricted family: integer-valued x = n, |n| <= 1000, with an integral exact image: %s_pt((%s)n).coerce_in(%s_pt) == (n*%d + %d) / %d exactly (floating rep; scale and '
+                               'origin offset of this unit pair are dyadic)' % (s_, ctf, t_, A_, B_, Dn_), functions_under_contract=('au::QuantityPoint::coerce_in (floating rep)',)))
     # ---- floating reps: a NaN position is unordered (every ordering comparison false, != true), mixed units and same unit
     for (s1, t1, rep) in (('C', 'K', 'f64'), ('F', 'F', 'f32'), ('K', 'mK', 'f32')):
         ct = G.ctype(rep)
